@@ -14,7 +14,7 @@ VERIF = os.path.dirname(os.path.dirname(os.path.abspath(__file__)))
 def load_variants():
     """Hand-written single-instance breakages (variants/*.json), the confirmed seeded changes (seeded/<id>-<k>),
     the reverse of every fix commit (variants/fixes, attributed through known_findings.txt) and the
-    behaviour-preserving refactorings (neutral/*, which every check must pass silently)."""
+    behaviour-preserving refactorings (neutral/*, which every check must pass silently; likewise feature/*: small behaviour-changing but property-preserving features)."""
     import re
     out = []
     for f in sorted(glob.glob(os.path.join(VERIF, 'variants', '*.json'))):
@@ -39,9 +39,9 @@ def load_variants():
         if c == '3af0dae':
             patches.insert(0, os.path.join('variants', 'fixes', 'revert-5e96f31.diff'))
         out.append({'id': 'revert-fix-' + c, 'property': fixes[c][0], 'patches': patches, 'note': fixes[c][1], '_src': 'fixes'})
-    for d in sorted(glob.glob(os.path.join(VERIF, 'neutral', '*'))):
+    for d in sorted(glob.glob(os.path.join(VERIF, 'neutral', '*')) + glob.glob(os.path.join(VERIF, 'feature', '*'))):
         if os.path.exists(os.path.join(d, 'patch.diff')):
-            out.append({'id': 'neutral-' + os.path.basename(d), 'property': '*', 'patches': [os.path.join('neutral', os.path.basename(d), 'patch.diff')], 'expect': 'silent', '_src': 'neutral'})
+            out.append({'id': 'neutral-' + os.path.basename(d), 'property': '*', 'patches': [os.path.join(os.path.basename(os.path.dirname(d)), os.path.basename(d), 'patch.diff')], 'expect': 'silent', '_src': 'neutral'})
     return out
 
 def run_one(v, repo, prop=None):
